@@ -6,6 +6,7 @@ use crate::lw::{self, LwRun};
 use crate::refan::{self, Bnf, RefSets, TS};
 use std::collections::BTreeSet;
 
+
 pub struct Analysis {
     pub printed: Printed,
     pub flat: Flat,
@@ -103,4 +104,140 @@ pub fn compare_sets(g: &Grammar, a: &Analysis) -> Vec<SetMismatch> {
 pub fn node_text(a: &Analysis, id: usize) -> String {
     let (s, e) = a.printed.spans[id];
     a.printed.text[s..e].to_string()
+}
+
+/// Does this branch / body start with a semantic predicate (`?n` or `?t`)?
+pub fn has_leading_pred(flat: &Flat, n: usize) -> bool {
+    match &flat.nodes[n].kind {
+        K::Concat => flat.nodes[n].children.first().is_some_and(|c| matches!(flat.nodes[*c].kind, K::Pred(_))),
+        K::Paren => flat.nodes[n].children.first().is_some_and(|c| has_leading_pred(flat, *c)),
+        _ => false,
+    }
+}
+
+#[derive(Debug, Clone)]
+pub struct PrattBranch {
+    pub branch: usize,
+    /// child index of the left operand (Some for left recursive branches)
+    pub left: Option<usize>,
+    /// child index of the right operand
+    pub right: Option<usize>,
+}
+
+/// Recursive branches of a rule whose body is a top-level alternation (README: direct recursion).
+pub fn pratt_branches(flat: &Flat, rule: usize) -> Vec<PrattBranch> {
+    let mut out = vec![];
+    let Some(body) = flat.rule_body[rule] else { return out };
+    if flat.nodes[body].kind != K::Alt {
+        return out;
+    }
+    for b in &flat.nodes[body].children {
+        if flat.nodes[*b].kind != K::Concat {
+            continue;
+        }
+        let ch = &flat.nodes[*b].children;
+        let sig: Vec<usize> = (0..ch.len()).filter(|i| !matches!(flat.nodes[ch[*i]].kind, K::Pred(_) | K::Rename(_) | K::Elide | K::Action(_))).collect();
+        if sig.len() < 2 {
+            // a single operand is no operator branch
+            continue;
+        }
+        let is_self = |i: usize| flat.nodes[ch[i]].kind == K::Ref(rule);
+        let left = sig.first().copied().filter(|i| is_self(*i));
+        let right = sig.last().copied().filter(|i| is_self(*i));
+        if left.is_some() || right.is_some() {
+            out.push(PrattBranch { branch: *b, left, right });
+        }
+    }
+    out
+}
+
+pub type ConflictSet = BTreeSet<(String, (usize, usize))>;
+
+/// Expected LL(1) conflicts from the definition and the reference sets.
+/// Returns (must, may): `must` ⊆ reported ⊆ `may` is required (the difference is the single
+/// don't-care case I-4: an unguarded earlier branch against a guarded later one).
+pub fn expected_conflicts(g: &Grammar, a: &Analysis) -> (ConflictSet, ConflictSet) {
+    let flat = &a.flat;
+    let s = &a.sets;
+    let mut must = ConflictSet::new();
+    let mut may = ConflictSet::new();
+    let span = |n: usize| a.printed.spans[n];
+    for (id, node) in flat.nodes.iter().enumerate() {
+        match node.kind {
+            K::Alt => {
+                let top = node.parent.is_none();
+                let pb = if top { pratt_branches(flat, node.rule) } else { vec![] };
+                let left_rec: Vec<&PrattBranch> = pb.iter().filter(|b| b.left.is_some()).collect();
+                let is_left = |b: usize| left_rec.iter().any(|x| x.branch == b);
+                let cand: Vec<usize> = node.children.iter().copied().filter(|c| !is_left(*c)).collect();
+                for i in 0..cand.len() {
+                    if has_leading_pred(flat, cand[i]) {
+                        continue;
+                    }
+                    for j in i + 1..cand.len() {
+                        if !s.predict(cand[i]).inter(&s.predict(cand[j])).is_empty() {
+                            may.insert(("E011".into(), span(cand[i])));
+                            if !has_leading_pred(flat, cand[j]) {
+                                must.insert(("E011".into(), span(cand[i])));
+                            }
+                        }
+                    }
+                }
+                if !left_rec.is_empty() {
+                    // tokens that may follow the rule outside its own operand positions
+                    let mut outside = TS::default();
+                    for (occ, n2) in flat.nodes.iter().enumerate() {
+                        if n2.kind != K::Ref(node.rule) {
+                            continue;
+                        }
+                        let governed = pb.iter().any(|b| {
+                            let ch = &flat.nodes[b.branch].children;
+                            b.left.is_some_and(|i| ch[i] == occ) || b.right.is_some_and(|i| ch[i] == occ)
+                        });
+                        if !governed {
+                            outside = outside.union(&s.follow[occ]);
+                        }
+                    }
+                    let op_of = |b: &PrattBranch| -> Option<usize> {
+                        let ch = &flat.nodes[b.branch].children;
+                        ch.iter().copied().filter(|c| !matches!(flat.nodes[*c].kind, K::Pred(_))).nth(1)
+                    };
+                    for (i, b) in left_rec.iter().enumerate() {
+                        if has_leading_pred(flat, b.branch) {
+                            continue;
+                        }
+                        let Some(op) = op_of(b) else { continue };
+                        if !s.predict(op).inter(&outside).is_empty() {
+                            must.insert(("E012".into(), span(op)));
+                            may.insert(("E012".into(), span(op)));
+                        }
+                        for b2 in left_rec.iter().skip(i + 1) {
+                            let Some(op2) = op_of(b2) else { continue };
+                            if !s.predict(op).inter(&s.predict(op2)).is_empty() {
+                                may.insert(("E012".into(), span(op)));
+                                if !has_leading_pred(flat, b2.branch) {
+                                    must.insert(("E012".into(), span(op)));
+                                }
+                            }
+                        }
+                    }
+                }
+            }
+            K::Star | K::Plus | K::Opt => {
+                let body = node.children[0];
+                if !has_leading_pred(flat, body) && !s.follow[id].inter(&s.predict(body)).is_empty() {
+                    let code = if node.kind == K::Opt { "E014" } else { "E013" };
+                    must.insert((code.into(), span(id)));
+                    may.insert((code.into(), span(id)));
+                }
+            }
+            _ => {}
+        }
+    }
+    let _ = g;
+    (must, may)
+}
+
+pub fn reported_conflicts(a: &Analysis) -> ConflictSet {
+    a.run.diags.iter().filter(|d| d.code.as_deref().is_some_and(|c| LL1_CODES.contains(&c))).filter_map(|d| d.primary().map(|p| (d.code.clone().unwrap(), p))).collect()
 }
